@@ -1,6 +1,7 @@
 import Pymeeus.Refine.UtcReadback
 import Pymeeus.Refine.LeapAny
 import Pymeeus.Refine.LocalPath
+import Pymeeus.Refine.DeltaT
 /-
 C10 — UTC <-> TT offset follows the IERS leap-second history and inverts.
 
@@ -253,7 +254,64 @@ theorem get_date_local_false_counterexample :
   refine ⟨get_date_local_zero _ false, ?_⟩
   decide +kernel
 
+/-! ### Delta-T against the published polynomial expressions -/
+
+/-- `Epoch.tt2ut(year, month)` is, for EVERY year and month, the Espenak–Meeus expression (Spec/DeltaT.lean, written from
+    the publication in power form) of the segment the calendar year falls in — each of the 14 switch-over years belongs to
+    the later segment — evaluated at `dtArg year month` (next two theorems). -/
+theorem deltaT_is_espenak_meeus (year month : Int) : tt2ut year month = Spec.deltaT year (dtArg year month) :=
+  tt2ut_eq_spec year month
+
+/-- in −500 … 499 and 1600 … 2149 the polynomial is evaluated at the publication's decimal year y = year + (month − 0.5)/12 -/
+theorem deltaT_argument_published (year month : Int) (h : (-500 ≤ year ∧ year < 500) ∨ (1600 ≤ year ∧ year < 2150)) :
+    tt2ut year month = Spec.deltaT year ((year : ℚ) + ((month : ℚ) - 1 / 2) / 12) := by
+  rw [deltaT_is_espenak_meeus]
+  have : ¬ (year < -500 ∨ (500 ≤ year ∧ year < 1600) ∨ 2150 ≤ year) := by omega
+  simp only [dtArg, this, if_false]
+
+/-- before −500, in 500 … 1599 and from 2150 on the code evaluates the polynomial at the INTEGER year (the publication
+    uses the decimal year there too): `tt2ut` does not depend on the month in those years.  Stated as coded. -/
+theorem deltaT_argument_integer_year (year month month' : Int) (h : year < -500 ∨ (500 ≤ year ∧ year < 1600) ∨ 2150 ≤ year) :
+    tt2ut year month = Spec.deltaT year (year : ℚ) ∧ tt2ut year month = tt2ut year month' := by
+  rw [deltaT_is_espenak_meeus, deltaT_is_espenak_meeus]
+  simp only [dtArg, h, if_true, and_self]
+
+/-- the boundary years themselves: 2050 is on the 2050–2150 expression (not the 2005–2050 quadratic), 2005 on the quadratic,
+    1600 on the cubic in (y − 1600), −500 on the sixth-degree polynomial -/
+theorem deltaT_boundary_years (month : Int) :
+    tt2ut 2050 month = (-20) + 32 * (((2050 : ℚ) + ((month : ℚ) - 1 / 2) / 12 - 1820) / 100) ^ 2
+        - 0.5628 * (2150 - ((2050 : ℚ) + ((month : ℚ) - 1 / 2) / 12)) ∧
+    tt2ut 2005 month = 62.92 + 0.32217 * ((2005 : ℚ) + ((month : ℚ) - 1 / 2) / 12 - 2000)
+        + 0.005589 * ((2005 : ℚ) + ((month : ℚ) - 1 / 2) / 12 - 2000) ^ 2 ∧
+    tt2ut 2150 month = (-20) + 32 * (((2150 : ℚ) - 1820) / 100) ^ 2 := by
+  refine ⟨?_, ?_, ?_⟩
+  · rw [deltaT_argument_published 2050 month (by omega)]; simp [Spec.deltaT]
+  · rw [deltaT_argument_published 2005 month (by omega)]; simp [Spec.deltaT]
+  · rw [(deltaT_argument_integer_year 2150 month month (by omega)).1]; simp [Spec.deltaT]
+
+/-! ### kwargs of `get_date` -/
+
+/-- `get_date(utc=False)` and `get_date()` are the plain read-back (no offset, whatever the year) -/
+theorem get_date_utc_false_or_absent (j : ℚ) :
+    get_date_kw j (some false) none = get_date j ∧ get_date_kw j none none = get_date j := by
+  constructor <;>
+  · unfold get_date_kw
+    cases get_date j with
+    | error e => rfl
+    | ok t =>
+      obtain ⟨y, m, d⟩ := t
+      simp [get_date_deltasec, peq_zero]
+
+/-- the 1972 gate of the constructor is the YEAR, not the leap-second count: January 1972 (count 0) already gets
+    42.184 s, December 1971 gets nothing -/
+theorem utc_gate_is_the_year :
+    epoch_set_kw 1972 1 1 0 0 0 (some true) none = .ok (compute_jde 1972 1 1 + 42.184 / 86400) ∧
+    epoch_set_kw 1971 12 31 0 0 0 (some true) none = .ok (compute_jde 1971 12 31) := by
+  decide +kernel
+
 -- Non-vacuity: the hypotheses are met by concrete inputs.
+example : ((-500 : Int) ≤ 2050 ∧ (2050 : Int) < 500) ∨ ((1600 : Int) ≤ 2050 ∧ (2050 : Int) < 2150) := by decide
+example : dtArg 1000 3 = 1000 ∧ dtArg 2000 1 = 2000 + 1 / 24 := by constructor <;> norm_num [dtArg]
 example : epoch_set_kw 2016 12 31 23 59 59 none none = .ok (compute_jde 2016 12 (31 + (23 / 24 + 59 / 1440 + 59 / 86400)) + 0) := by
   decide +kernel
 example : iers 2016 12 = 26 ∧ iers 2017 1 = 27 ∧ iers 1972 1 = 0 ∧ iers 1999 12 = 22 := by decide
